@@ -161,6 +161,39 @@ def judge_c05(H):
                     V.append((mech, f"{inc} {tpk}: returned offset {o}, expected next visible {nv} (cursor {cur})",
                               {"period": {k: v for k, v in rec.items() if k != 'deliveries'}, "offset": o, "cursor": cur}))
                 cur = max(cur, o + 1)
+    # ---- (4b) a member that LEFT the group by itself (its heartbeat task sends LeaveGroup when the application has not
+    # polled for max_poll_interval_ms) gave its partitions up knowingly: the assignment is superseded from the moment the
+    # coordinator's answer is in.  The library closes the delivery gate (join prepare, revoke callback) right then - at
+    # most one metadata request later for a pattern subscription.  A record returned from the old assignment later than
+    # that, with no revoke callback begun since, is data of a superseded assignment.
+    P = H["params"]
+    undelivered = {f["n"] for f in H["faulted_requests"] if f["api"] == "LeaveGroup"}
+    stops = {}
+    for e in H["events"]:
+        if e["op"] in ("stop.call", "kill") and e["m"]:
+            stops.setdefault(e["m"], e["t"])
+    for e in H["group"]:
+        if e["op"] != "LeaveGroup" or e.get("error") != 0 or e.get("req_n") in undelivered:
+            continue
+        inc = e["client_id"]
+        if stops.get(inc, 1e18) <= e["t"] + 1e-9:
+            continue                         # the LeaveGroup of stop(): nothing is delivered after stop() anyway
+        st["self_initiated_leaves_checked"] = st.get("self_initiated_leaves_checked", 0) + 1
+        pattern = "pattern" in (P["members"].get(inc.split("i")[0]) or {})
+        slack = 4 * P["retry_backoff_ms"] / 1000.0 + 0.1 + (P["request_timeout_ms"] / 1000.0 if pattern else 0.0)
+        for key, recs in per.items():
+            if key[0] != inc:
+                continue
+            for rec in recs:
+                if rec["t_start"] > e["t"] or (rec["t_end"] is not None and rec["t_end"] <= e["t"]):
+                    continue
+                late = [(t, o) for (t, o, _n) in rec["deliveries"] if t > e["t"] + slack]
+                if late:
+                    V.append(("record_delivered_after_member_left_the_group_by_itself",
+                              f"{inc} sent LeaveGroup (answered OK at t={e['t']}) and {late[0][0] - e['t']:.2f}s later returned "
+                              f"{key[1]}:{key[2]} offset {late[0][1]} from the assignment it had given up; no on_partitions_revoked "
+                              "had begun in between", {"leave": e, "period": {k: v for k, v in rec.items() if k != 'deliveries'},
+                                                        "first_late_delivery": late[0]}))
     # ---- (5) barrier: per generation all revoke-ends precede all assigned-starts
     joins = {}    # inc -> [(t_request, generation of the OK reply)]
     for e in H["group"]:
